@@ -34,6 +34,7 @@ package keeper
 //@      && ctxTime(ctx) >= b.DisabledTime + params.ArbitrationTimeLimit + params.ComplaintRetrospect
 //@      && canPay(old(bal), modAddr("service_deposit_account"), b.Deposit)) ==> err == NoErr
 //@ ensures error_changes_nothing: err != NoErr ==> raw == old(raw) && bal == old(bal)
+//@ ensures [C15] definitions_bindings_and_provider_owners_are_for_life: forLife(old(raw), raw)
 
 //@ func (Keeper).validateDeposit
 //@ vars (keeper.Keeper).validateDeposit: k=github.com/irismod/service/keeper.Keeper#0 ctx=github.com/cosmos/cosmos-sdk/types.Context#0 deposit=github.com/cosmos/cosmos-sdk/types.Coins#0 baseDenom=string#0 token=github.com/irismod/service/types.TokenI#0 err=error#0
@@ -51,6 +52,7 @@ package keeper
 //@ ensures disabled_now: err == NoErr ==> (let b := bindOf(old(raw), serviceName, provider) in
 //@      raw == old(raw)[KBind(serviceName, provider) := enc_ServiceBinding(b[Available := false][DisabledTime := ctxTime(ctx)])])
 //@ ensures error_changes_nothing: err != NoErr ==> raw == old(raw)
+//@ ensures [C15] definitions_bindings_and_provider_owners_are_for_life: forLife(old(raw), raw)
 
 //@ func (Keeper).EnableServiceBinding
 //@ vars (keeper.Keeper).EnableServiceBinding: k=github.com/irismod/service/keeper.Keeper#0 ctx=github.com/cosmos/cosmos-sdk/types.Context#0 serviceName=string#0 provider=github.com/cosmos/cosmos-sdk/types.AccAddress#0 deposit=github.com/cosmos/cosmos-sdk/types.Coins#0 owner=github.com/cosmos/cosmos-sdk/types.AccAddress#1 binding=github.com/irismod/service/types.ServiceBinding#0 found=bool#0 err=error#0 minDeposit=github.com/cosmos/cosmos-sdk/types.Coins#1 err=error#1
@@ -67,6 +69,7 @@ package keeper
 //@ ensures [C03] record_grows_by_deposit: err == NoErr ==> (let b := bindOf(old(raw), serviceName, provider) in
 //@      raw == old(raw)[KBind(serviceName, provider) := enc_ServiceBinding(b[Deposit := (len(deposit) == 0 ? b.Deposit : coinsAdd(b.Deposit, deposit))][Available := true][DisabledTime := 0])])
 //@ ensures error_changes_nothing: err != NoErr ==> raw == old(raw) && bal == old(bal)
+//@ ensures [C15] definitions_bindings_and_provider_owners_are_for_life: forLife(old(raw), raw)
 
 //@ func (Keeper).AddServiceBinding
 //@ vars (keeper.Keeper).AddServiceBinding: k=github.com/irismod/service/keeper.Keeper#0 ctx=github.com/cosmos/cosmos-sdk/types.Context#0 serviceName=string#0 provider=github.com/cosmos/cosmos-sdk/types.AccAddress#0 deposit=github.com/cosmos/cosmos-sdk/types.Coins#0 pricing=string#1 qos=uint64#0 options=string#2 owner=github.com/cosmos/cosmos-sdk/types.AccAddress#1 found=bool#0 found=bool#1 currentOwner=github.com/cosmos/cosmos-sdk/types.AccAddress#2 found=bool#2 err=error#0 maxReqTimeout=int64#0 err=error#1 parsedPricing=github.com/irismod/service/types.Pricing#0 err=error#2 err=error#3 minDeposit=github.com/cosmos/cosmos-sdk/types.Coins#1 err=error#4 available=bool#3 disabledTime=time.Time#0 svcBinding=github.com/irismod/service/types.ServiceBinding#0
@@ -86,6 +89,7 @@ package keeper
 //@      raw == (len(ownerOf(old(raw), provider)) == 0 ? r1[KOwner(provider) := enc_BytesValue(mkBytesValue(owner))][KOwnerProv(owner, provider) := emptyVal] : r1))
 //@ ensures error_changes_nothing: err != NoErr ==> raw == old(raw) && bal == old(bal)
 //@ requires a2_provider_present: len(provider) > 0
+//@ ensures [C15] definitions_bindings_and_provider_owners_are_for_life: forLife(old(raw), raw)
 
 //@ func (Keeper).UpdateServiceBinding
 //@ vars (keeper.Keeper).UpdateServiceBinding: k=github.com/irismod/service/keeper.Keeper#0 ctx=github.com/cosmos/cosmos-sdk/types.Context#0 serviceName=string#0 provider=github.com/cosmos/cosmos-sdk/types.AccAddress#0 deposit=github.com/cosmos/cosmos-sdk/types.Coins#0 pricing=string#1 qos=uint64#0 options=string#2 owner=github.com/cosmos/cosmos-sdk/types.AccAddress#1 binding=github.com/irismod/service/types.ServiceBinding#0 found=bool#0 updated=bool#1 maxReqTimeout=int64#0 err=error#0 parsedPricing=github.com/irismod/service/types.Pricing#0 err=error#1 err=error#2 minDeposit=github.com/cosmos/cosmos-sdk/types.Coins#1 err=error#3
@@ -105,6 +109,7 @@ package keeper
 //@      raw == ((qos != 0 || len(deposit) != 0 || len(pricing) != 0) ? r1[KBind(serviceName, provider) := enc_ServiceBinding(nb)] : r1))
 //@ ensures [C03] deposits_in_custody_kept: err == NoErr && depInv(old(raw), old(bal)) ==> depInv(raw, bal)
 //@ ensures [C05] error_moves_no_coins: err != NoErr ==> bal == old(bal)
+//@ ensures [C15] definitions_bindings_and_provider_owners_are_for_life: forLife(old(raw), raw)
 
 //@ func (Keeper).Slash
 //@ vars (keeper.Keeper).Slash: k=github.com/irismod/service/keeper.Keeper#0 ctx=github.com/cosmos/cosmos-sdk/types.Context#0 requestID=github.com/tendermint/tendermint/libs/bytes.HexBytes#0 request=github.com/irismod/service/types.Request#0 binding=github.com/irismod/service/types.ServiceBinding#0 slashFraction=github.com/cosmos/cosmos-sdk/types.Dec#0 baseDenom=string#0 depositAmt=github.com/cosmos/cosmos-sdk/types.Int#0 slashedAmt=github.com/cosmos/cosmos-sdk/types.Int#1 slashedCoins=github.com/cosmos/cosmos-sdk/types.Coins#0 deposit=github.com/cosmos/cosmos-sdk/types.Coins#1 hasNeg=bool#0 err=error#0 minDeposit=github.com/cosmos/cosmos-sdk/types.Coins#2
@@ -126,6 +131,7 @@ package keeper
 //@ ensures error_changes_nothing: err != NoErr ==> raw == old(raw) && bal == old(bal) && supply == old(supply)
 //@ ensures [C04] fails_only_if_the_burn_cannot_be_made: (err == NoErr) <==> (!hasNeg(bindOf(old(raw), reqSvc(old(raw), requestID), reqProv(old(raw), requestID)).Deposit, slashBurn(old(raw), requestID)) &&
 //@      canPay(old(bal), depositAcc, slashBurn(old(raw), requestID)))
+//@ ensures [C15] definitions_bindings_and_provider_owners_are_for_life: forLife(old(raw), raw)
 
 //@ func (Keeper).GetExchangedPrice
 //@ vars (keeper.Keeper).GetExchangedPrice: k=github.com/irismod/service/keeper.Keeper#0 ctx=github.com/cosmos/cosmos-sdk/types.Context#0 consumer=github.com/cosmos/cosmos-sdk/types.AccAddress#0 binding=github.com/irismod/service/types.ServiceBinding#0 pricing=github.com/irismod/service/types.Pricing#0 discountByTime=github.com/cosmos/cosmos-sdk/types.Dec#0 discountByVolume=github.com/cosmos/cosmos-sdk/types.Dec#1 baseDenom=string#0 rawDenom=string#1 rawPrice=github.com/cosmos/cosmos-sdk/types.Int#0 price=github.com/cosmos/cosmos-sdk/types.Dec#2 realPrice=github.com/cosmos/cosmos-sdk/types.Dec#3 exchangeRateSvc=*github.com/irismod/service/types.ModuleService#0 exist=bool#0 inputBody=string#2 input=string#3 err=error#0 result=string#4 output=string#5 code=string#6 msg=string#7 outputBody=string#8 err=error#1 rate=github.com/cosmos/cosmos-sdk/types.Dec#4 err=error#2
@@ -298,6 +304,7 @@ package keeper
 //@ after earnings_total_grows_by_fee_minus_tax assume provider_gets_fee_minus_tax exactly_these_records_written witnesses_are_coin_lists
 //@ after pending_total_untouched assume exactly_these_records_written witnesses_are_coin_lists
 //@ after earned_records_stay_well_formed assume provider_gets_fee_minus_tax exactly_these_records_written witnesses_are_coin_lists
+//@ ensures [C15] definitions_bindings_and_provider_owners_are_for_life: forLife(old(raw), raw)
 
 //@ func (Keeper).WithdrawEarnedFees
 //@ vars (keeper.Keeper).WithdrawEarnedFees: k=github.com/irismod/service/keeper.Keeper#0 ctx=github.com/cosmos/cosmos-sdk/types.Context#0 owner=github.com/cosmos/cosmos-sdk/types.AccAddress#0 provider=github.com/cosmos/cosmos-sdk/types.AccAddress#1 providerOwner=github.com/cosmos/cosmos-sdk/types.AccAddress#2 ownerEarnedFees=github.com/cosmos/cosmos-sdk/types.Coins#0 found=bool#0 withdrawFees=github.com/cosmos/cosmos-sdk/types.Coins#1 earnedFees=github.com/cosmos/cosmos-sdk/types.Coins#2 found=bool#1 iterator=github.com/cosmos/cosmos-sdk/types.Iterator#0 provider=github.com/cosmos/cosmos-sdk/types.AccAddress#3 withdrawAddr=github.com/cosmos/cosmos-sdk/types.AccAddress#4
@@ -340,6 +347,7 @@ package keeper
 //@ ensures [C01] escrow_exactly_backed_after_an_owner_withdrawal: err == NoErr && len(provider) == 0 ==> escInv(raw, bal)
 //@ after owner_withdrawal_extinguishes_exactly_what_it_pays assume pays_exactly_the_recorded_earnings owner_mode_resets_all_its_providers
 //@ after escrow_exactly_backed_after_an_owner_withdrawal assume owner_withdrawal_extinguishes_exactly_what_it_pays pending_total_untouched to_the_owners_withdrawal_address
+//@ ensures [C15] definitions_bindings_and_provider_owners_are_for_life: forLife(old(raw), raw)
 
 // ---------------------------------------------------------------- requests, responses, batches (C02, C08, C12, C16, C17)
 //@ func (Keeper).GetRequest
@@ -420,6 +428,7 @@ package keeper
 //@ after escrow_exactly_backed_kept assume pending_total_drops_by_the_fee earnings_total_grows_by_fee_minus_tax_unless_malformed malformed_output_slashes_and_refunds_the_consumer good_response_pays_tax_and_never_slashes
 //@ ensures [C16] both_pending_indexes_list_the_same_requests_kept: err == NoErr ==> idxInv(raw)
 //@ after both_pending_indexes_list_the_same_requests_kept assume accepted_only_from_its_provider_while_pending no_longer_pending_in_either_index touches_only_its_own_records response_counted_and_batch_completed_when_all_answered
+//@ ensures [C15] definitions_bindings_and_provider_owners_are_for_life: forLife(old(raw), raw)
 
 // ---------------------------------------------------------------- issuing a batch (C06, C01, C08, C12)
 //@ func (Keeper).FilterServiceProviders
@@ -768,6 +777,7 @@ package keeper
 //@      raw[KNewQ(ctxHeight(ctx), reqContextID)] == idVal(reqContextID) && raw[KNewH(reqContextID)] == hVal(ctxHeight(ctx)) && raw[KExpH(reqContextID)] == bnil
 //@ ensures [C10,C01] the_immediate_batch_is_the_only_batch_of_this_one_shot_context: err == NoErr ==> raw[KNewQ(ctxHeight(ctx), reqContextID)] == bnil && raw[KNewH(reqContextID)] == bnil
 //@ preserves [C01] escrow_exactly_backed: escInv(raw, bal) && earnNonneg(raw) && wfEarned(raw)
+//@ ensures [C15] definitions_bindings_and_provider_owners_are_for_life: forLife(old(raw), raw)
 
 // ---------------------------------------------------------------- genesis import of one binding (C19: price terms and ownership indexes are rebuilt)
 //@ func (Keeper).SetServiceBindingForGenesis
